@@ -21,38 +21,38 @@ type Budget struct {
 }
 
 type FoundViolation struct {
-	Property string      `json:"property"`
-	Oracle   string      `json:"oracle"`
-	Msg      string      `json:"msg"`
-	Case     string      `json:"case"`
-	Prefix   []int       `json:"prefix"`
-	Sigs     []string    `json:"sigs,omitempty"`
-	Trace    []string    `json:"trace,omitempty"`
-	Repro    string      `json:"reproduced,omitempty"`
-	Sig      string      `json:"signature"`
+	Property string   `json:"property"`
+	Oracle   string   `json:"oracle"`
+	Msg      string   `json:"msg"`
+	Case     string   `json:"case"`
+	Prefix   []int    `json:"prefix"`
+	Sigs     []string `json:"sigs,omitempty"`
+	Trace    []string `json:"trace,omitempty"`
+	Repro    string   `json:"reproduced,omitempty"`
+	Sig      string   `json:"signature"`
 }
 
 // Stats are accumulated over all cases of a job and merged by the driver.
 type Stats struct {
-	Execs        int            `json:"execs"`
-	Steps        int64          `json:"steps"`
-	NewStates    int64          `json:"new_states"`
-	Cases        int            `json:"cases"`
-	MaxDepth     int            `json:"max_depth"`
-	Outcomes     map[string]int `json:"outcomes"`
-	Replayed     int            `json:"replayed"`
-	Diverged     int            `json:"diverged"`
-	IdentityTies int            `json:"identity_ties"`
-	Horizon      int            `json:"horizon_hits"`
-	Capped       bool           `json:"capped"`
-	Internal     []string       `json:"internal,omitempty"`
-	Violations   []FoundViolation `json:"violations"`
-	Samples      []any          `json:"samples"`
-	LockOrder    map[string]bool `json:"lock_order,omitempty"`
-	Unreproduced []FoundViolation `json:"unreproduced,omitempty"`
-	Notes        []string       `json:"notes,omitempty"`
+	Execs        int               `json:"execs"`
+	Steps        int64             `json:"steps"`
+	NewStates    int64             `json:"new_states"`
+	Cases        int               `json:"cases"`
+	MaxDepth     int               `json:"max_depth"`
+	Outcomes     map[string]int    `json:"outcomes"`
+	Replayed     int               `json:"replayed"`
+	Diverged     int               `json:"diverged"`
+	IdentityTies int               `json:"identity_ties"`
+	Horizon      int               `json:"horizon_hits"`
+	Capped       bool              `json:"capped"`
+	Internal     []string          `json:"internal,omitempty"`
+	Violations   []FoundViolation  `json:"violations"`
+	Samples      []any             `json:"samples"`
+	LockOrder    map[string]bool   `json:"lock_order,omitempty"`
+	Unreproduced []FoundViolation  `json:"unreproduced,omitempty"`
+	Notes        []string          `json:"notes,omitempty"`
 	BudgetDone   map[string]string `json:"budget_done,omitempty"`
-	Extra        map[string]any `json:"extra,omitempty"`
+	Extra        map[string]any    `json:"extra,omitempty"`
 }
 
 func newStats() *Stats {
